@@ -120,6 +120,11 @@ Definition wcond_ok (c : node) : bool :=
   | _ => true
   end.
 
+(* Everything about condition_detect is independent of what the loop conditions are: the requirement on them is a
+   parameter [wc] (wcond_ok for the loop_detect part below; none for counting loops, Proofs/LingoNestFor.v). *)
+Section WC.
+Context {wc : node -> bool}.
+
 (* well-positioned item lists: plain statements are assignments or calls, positions increase, a body lies strictly
    between its jump and its end, bodies are not empty *)
 Inductive wp : Z -> Z -> list item -> Prop :=
@@ -130,7 +135,7 @@ Inductive wp : Z -> Z -> list item -> Prop :=
     lo <= p -> body <> [] -> ebody <> [] -> wp (p + 1) jp body -> jp < eb -> wp eb je ebody -> wp je hi r ->
     wp lo hi (IIfE p c eb body jp je ebody :: r)
 | wp_while lo hi done ps pj c pe body r :
-    lo <= ps -> ps <= pj -> wcond_ok c = true -> wp (pj + 1) pe body -> wp (pe + 1) hi r ->
+    lo <= ps -> ps <= pj -> wc c = true -> wp (pj + 1) pe body -> wp (pe + 1) hi r ->
     wp lo hi (IWhile done ps pj c pe body :: r).
 
 Lemma wp_le lo hi l : wp lo hi l -> lo <= hi.
@@ -990,6 +995,9 @@ Qed.
 Theorem condition_detect_nest f e l lo hi tail : wp lo hi l -> le_opt hi e -> tail_ok hi tail -> (depths l < f)%nat ->
   condition_detect f (flats l ++ tail) e = Ok (trees l ++ tail).
 Proof. exact (proj1 (cd_all f) e l lo hi tail). Qed.
+End WC.
+(* the instance for the loop_detect part: while conditions that cannot be read as counting / list loops *)
+Notation wpw := (@wp wcond_ok).
 
 (* ---- loop_detect: ifs are walked through, a converted loop gets its while condition ---- *)
 Definition ld_step (f : nat) (acc : result (list node * option node * list node)) (st : node) :
@@ -1050,11 +1058,11 @@ Proof.
   destruct c1; try reflexivity. destruct c2; try reflexivity. rewrite Hc. reflexivity.
 Qed.
 
-Theorem loop_detect_nest : forall f l lo hi, wp lo hi l -> (depths l < f)%nat -> loop_detect (S f) (trees l) = Ok (fins l).
+Theorem loop_detect_nest : forall f l lo hi, wpw lo hi l -> (depths l < f)%nat -> loop_detect (S f) (trees l) = Ok (fins l).
 Proof.
   induction f as [|f IHf]; intros l lo hi Hwp Hd; [lia|].
   rewrite loop_detect_unfold.
-  assert (E : forall todo lo hi, wp lo hi todo -> (depths todo < S f)%nat -> forall out prev,
+  assert (E : forall todo lo hi, wpw lo hi todo -> (depths todo < S f)%nat -> forall out prev,
              exists prev', fold_left (ld_step (S f)) (trees todo) (Ok (out, prev, [])) = Ok (out ++ fins todo, prev', [])).
   { clear l lo hi Hwp Hd.
     induction 1 as [lo hi H | lo hi st r Hp Hlo Hr IH | lo hi p c a body r Hlo Hne Hb _ Hr IHr
@@ -1093,7 +1101,7 @@ Lemma count_split (l1 : list node) (k : nat) :
   fold_right (fun x acc => (stmt_count x + acc)%nat) k l1 = (fold_right (fun x acc => (stmt_count x + acc)%nat) O l1 + k)%nat.
 Proof. induction l1; cbn [fold_right]; [reflexivity | rewrite IHl1; lia]. Qed.
 
-Lemma depth_le_count : forall l lo hi, wp lo hi l -> (depths l <= stmts_count (flats l))%nat /\ (depths l <= stmts_count (trees l))%nat.
+Lemma depth_le_count : forall l lo hi, wpw lo hi l -> (depths l <= stmts_count (flats l))%nat /\ (depths l <= stmts_count (trees l))%nat.
 Proof.
   induction 1 as [lo hi H | lo hi st r Hp Hlo Hr IH | lo hi p c a body r Hlo Hne Hb IHb Hr IHr
                  | lo hi p c eb body jp je ebody r Hlo Hne Hne' Hb IHb Hj He IHe Hr IHr
@@ -1110,7 +1118,7 @@ Proof.
     unfold stmts_count, loop_stmt, exit_if in *. cbn [app fold_right stmt_count]. destruct done; cbn [fold_right stmt_count]; split; lia.
 Qed.
 
-Theorem detect_nest l lo hi : wp lo hi l -> detect (flats l) = Ok (fins l).
+Theorem detect_nest l lo hi : wpw lo hi l -> detect (flats l) = Ok (fins l).
 Proof.
   intros Hwp. unfold detect. destruct (depth_le_count l lo hi Hwp) as [H1 H2].
   pose proof (condition_detect_nest (S (S (stmts_count (flats l)))) None l lo hi [] Hwp I (Forall_nil _) ltac:(lia)) as E.
